@@ -259,7 +259,7 @@ class CriterionTap(EvolvingAnsatzMinimumEigensolverBaseTerminationCriterion):
         b = self.inner.check_termination(
             population_evaluation=population_evaluation, best_individual=best_individual, best_expectation_value=best_expectation_value
         )
-        self.answer_types.add(type(b).__name__)
+        self.answer_types.add(f"{type(b).__module__}.{type(b).__name__}")   # builtins.bool / numpy.bool
         if self.registry is not None:
             rid, ind = self.registry.result_id(population_evaluation), self.registry.individual_id(best_individual)
         else:   # scripted objects carry their own ids
